@@ -47,7 +47,7 @@ func checkEncode(r *ev.Run, c *ev.Case, k *keyid.KeyID) {
 	want := valid(k)
 	if (err == nil) != want {
 		r.Violation(c, fmt.Sprintf("encode-accepts-mismatch:valid=%v:flags=%s", want, flagSig(k)),
-			fmt.Sprintf("Marshal(%+v) err=%v but reference valid=%v", *k, err, want), caseRec{KeyID: k, What: "encode"})
+			fmt.Sprintf("Marshal(%s) err=%v but reference valid=%v", show(k), err, want), caseRec{KeyID: k, What: "encode"})
 		return
 	}
 	r.Count(fmt.Sprintf("encode valid=%v", want), 1)
@@ -66,7 +66,7 @@ func checkEncode(r *ev.Run, c *ev.Case, k *keyid.KeyID) {
 		return
 	}
 	if !reflect.DeepEqual(back, k) {
-		r.Violation(c, "roundtrip-not-equal:flags="+flagSig(k), fmt.Sprintf("Unmarshal(Marshal(k)) = %+v, want %+v; text=%q", *back, *k, text), caseRec{KeyID: k, Text: text, What: "roundtrip"})
+		r.Violation(c, "roundtrip-not-equal:flags="+flagSig(k), fmt.Sprintf("Unmarshal(Marshal(k)) = %s, want %s; text=%q", show(back), show(k), text), caseRec{KeyID: k, Text: text, What: "roundtrip"})
 		return
 	}
 	r.Count("roundtrips equal", 1)
@@ -102,12 +102,22 @@ func decodeDigest(text string) string {
 	if err != nil {
 		return "error"
 	}
-	return fmt.Sprintf("%+v", *k)
+	return show(k)
+}
+
+// show renders every field (a KeyID prints as its touch policy with %v because the embedded policy type is a Stringer).
+func show(k *keyid.KeyID) string {
+	if k == nil {
+		return "<nil>"
+	}
+	b, _ := json.Marshal(k)
+	return string(b)
 }
 
 func checkDecode(r *ev.Run, c *ev.Case, text, shape string) {
 	r.Eval(1)
-	defer func() { ring.Add(r, c, func() string { return decodeDigest(text) }, decodeDigest(text), text) }()
+	d0 := decodeDigest(text) // the reference result, taken before anything below touches what the decoder hands out
+	defer func() { ring.Add(r, c, func() string { return decodeDigest(text) }, d0, text) }()
 	var k *keyid.KeyID
 	var err error
 	if r.Guard(c, "Unmarshal", caseRec{Text: text, What: shape}, func() { k, err = keyid.Unmarshal(text) }) {
@@ -135,16 +145,16 @@ func checkDecode(r *ev.Run, c *ev.Case, text, shape string) {
 		return
 	}
 	if !valid(k) {
-		r.Violation(c, "decode-accepts-inconsistent:flags="+flagSig(k), fmt.Sprintf("text=%q -> %+v", text, *k), caseRec{Text: text, What: shape})
+		r.Violation(c, "decode-accepts-inconsistent:flags="+flagSig(k), fmt.Sprintf("text=%q -> %s", text, show(k)), caseRec{Text: text, What: shape})
 		return
 	}
 	if !isObj {
-		r.Violation(c, "decode-accepts-non-object:"+shapeClass(shape), fmt.Sprintf("text=%q -> %+v", text, *k), caseRec{Text: text, What: shape})
+		r.Violation(c, "decode-accepts-non-object:"+shapeClass(shape), fmt.Sprintf("text=%q -> %s", text, show(k)), caseRec{Text: text, What: shape})
 		return
 	}
 	for _, key := range required {
 		if _, ok := m[key]; !ok {
-			r.Violation(c, "decode-accepts-missing-field:"+key, fmt.Sprintf("text=%q lacks %q but decoded to %+v", text, key, *k), caseRec{Text: text, What: shape})
+			r.Violation(c, "decode-accepts-missing-field:"+key, fmt.Sprintf("text=%q lacks %q but decoded to %s", text, key, show(k)), caseRec{Text: text, What: shape})
 			return
 		}
 	}
@@ -157,12 +167,12 @@ func checkDecode(r *ev.Run, c *ev.Case, text, shape string) {
 	// what was accepted must be encodable again and round-trip
 	t2, err2 := k.Marshal()
 	if err2 != nil {
-		r.Violation(c, "decoded-value-not-encodable:"+shapeClass(shape), fmt.Sprintf("text=%q -> %+v -> Marshal err %v", text, *k, err2), caseRec{Text: text, What: shape})
+		r.Violation(c, "decoded-value-not-encodable:"+shapeClass(shape), fmt.Sprintf("text=%q -> %s -> Marshal err %v", text, show(k), err2), caseRec{Text: text, What: shape})
 		return
 	}
 	k2, err3 := keyid.Unmarshal(t2)
 	if err3 != nil || !reflect.DeepEqual(k, k2) {
-		r.Violation(c, "decoded-value-roundtrip:"+shapeClass(shape), fmt.Sprintf("text=%q -> %+v -> %q -> %+v (%v)", text, *k, t2, k2, err3), caseRec{Text: text, What: shape})
+		r.Violation(c, "decoded-value-roundtrip:"+shapeClass(shape), fmt.Sprintf("text=%q -> %s -> %q -> %s (%v)", text, show(k), t2, show(k2), err3), caseRec{Text: text, What: shape})
 	}
 	// the caller owns what the decoder returned: scribbling over it must not show in any later decode (checked by the re-evaluation ring)
 	for i := range k.Principals {
